@@ -37,7 +37,8 @@ RULE = ('Generated sequences of EVENT/BINARY_EVENT packets (ids None, 0, '
         'the threaded server, suspended disconnect handler on the asyncio '
         'server), or events of a connected client while the CONNECT of its '
         'transport for a sibling namespace is still being decided by a '
-        'suspended (asyncio) / re-entered (threads) connect handler.')
+        'suspended (asyncio) / re-entered (threads) connect handler.'
+        ' always_connect is part of the configuration: the connecting client itself then sends events while its connect handler runs.')
 ASSUMPTIONS = [
     'handlers are inline harness functions that do not emit',
     'attachments are interleaved with nothing else from the same transport',
